@@ -20,8 +20,12 @@ def rand_hist(rng, U, M, n):
     arrmax = 0
     for _ in range(n):
         r = rng.random()
-        if r < 0.25:
+        if r < 0.22:
             h.append({"op": "next"})
+            continue
+        if r < 0.25:
+            # clear / overwrite exactly the key the traversal has just returned
+            h.append({"op": "set", "cur": True, "path": rng.choice(["RawSet", "lua", "rawset"]), "v": ["nil"] if rng.random() < 0.7 else rng.choice(VALS)})
             continue
         if r < 0.30:
             v = rng.choice(VALS)
@@ -47,6 +51,28 @@ def rand_hist(rng, U, M, n):
             path = rng.choice(["RawSet", "RawSetH", "lua", "rawset"])
         h.append({"op": "set", "path": path, "k": k, "v": v})
     return h
+
+
+def trav_clear_hists(rng, U, M, n):
+    """directed: a few keys of every kind inserted in a random order, then a complete traversal
+    in which the key just visited is cleared (or overwritten) at one chosen step"""
+    out = []
+    hashy = [k for k in U if not (k[0] == "n" and 0 < k[1] < (M or 1 << 30) and k[1] < 10)]
+    arr = [k for k in U if k[0] == "n" and 0 < k[1] < 5]
+    while len(out) < n:
+        ks = rng.sample(hashy, rng.randint(2, min(5, len(hashy)))) + rng.sample(arr, rng.randint(0, 2))
+        rng.shuffle(ks)
+        build = [{"op": "set", "path": "RawSet", "k": k, "v": rng.choice(VALS[1:])} for k in ks]
+        if rng.random() < 0.3:      # an older key deleted before the traversal starts (a tombstone in the key list)
+            build.append({"op": "set", "path": "RawSet", "k": rng.choice(ks), "v": ["nil"]})
+        for j in range(1, len(ks) + 1):
+            h = list(build) + [{"op": "next", "restart": True}] + [{"op": "next"}] * (j - 1)
+            h.append({"op": "set", "cur": True, "path": rng.choice(["RawSet", "lua", "rawset"]), "v": ["nil"] if rng.random() < 0.8 else rng.choice(VALS[1:])})
+            if rng.random() < 0.3:  # the length is read in the middle of the traversal
+                h.append({"op": "set", "path": "RawSet", "k": ["nil"], "v": ["nil"]} if False else {"op": "next"})
+            h += [{"op": "next"}] * (len(ks) + 2)
+            out.append(h)
+    return out[:n]
 
 
 def case_key(tr, bad, M=0):
@@ -153,12 +179,18 @@ def run(tier):
             distinct.add(vlib.canon_hash(h))
         samples.append({"config": tag, "history_prefix": hists[0][:6]})
         vlib.log("[C09] random %s: %d histories validated" % (tag, n))
+        hists = trav_clear_hists(rng, U, M or 67108864, 1500 if thorough else 400)
+        recs, n = run_histories(hists, U, M, tag.replace("r", "tc", 1), verd, stats, obsall=True)
+        total += n
+        for h in hists:
+            distinct.add(vlib.canon_hash(h))
+        vlib.log("[C09] traversal with the visited key cleared/overwritten %s: %d histories validated" % (tag, n))
     rc = verd.finish()
     vlib.write_evidence(PROP, tier, "model_checking", {
         "states": stats["states"], "transitions": stats["transitions"],
         "traces_validated_against_impl": total,
         "evaluations": total, "distinct_nontrivial": len(distinct),
-        "rule": "histories = one per transition of TableImpl's state graph (BFS, VIEW without history) for lua.MaxArrayIndex=5 and default, plus seeded random histories; distinct by canonical hash of the operation list, non-trivial = at least 2 operations",
+        "rule": "histories = one per transition of TableImpl's state graph (BFS, VIEW without history) for lua.MaxArrayIndex=5 and default, plus seeded random histories (traversal steps interleaved with stores, including clearing/overwriting the key just visited) and directed complete traversals clearing the visited key at every step; distinct by canonical hash of the operation list, non-trivial = at least 2 operations",
         "samples": samples, "mc_runs": mc, "exhaustive": False,
         "known_findings_hit": sorted(verd.known_hit),
     }, time.time() - t0, len(verd.violations), assumptions=[
@@ -173,7 +205,7 @@ def replay(path):
     tr = rec["replay"]["trace"]
     cfgtag = rec["replay"]["config"]
     U = tr["U"]
-    M = 5 if cfgtag in ("lo", "rlo") else 0
+    M = 5 if cfgtag in ("lo", "rlo", "tclo") else 0
     hist = []
     for e in tr["ev"]:
         op = {"op": e["op"]}
